@@ -48,6 +48,8 @@ def reader_filter(op: str, path: str, phase: tuple) -> bool:
         return True
     if op == "read_file" and P.path_class(path) == "data":
         return True
+    if P.path_class(path) in ("hint", "meta"):
+        return True        # every storage operation on the pointer / a metadata file (stat, exists, size ...) is a step
     return False
 
 
@@ -125,6 +127,28 @@ def window_chooser(writer: str, reader: str, k: int):
             if st["phase"] == 1:
                 if reader in enabled:
                     return reader
+                st["phase"] = 2
+            return enabled[0] if enabled else None
+        return choose
+    return factory
+
+
+def between_steps_chooser(reader: str, r: int, writers: List[str]):
+    """The reader performs r scheduler steps, then every writer runs to completion (whole commits land between two
+    consecutive storage operations of the reader), then the reader finishes."""
+    def factory(_sc: S.Scheduler):
+        st = {"left": r, "phase": 0}
+
+        def choose(enabled: List[str], _s: S.Scheduler) -> Optional[str]:
+            if st["phase"] == 0:
+                if st["left"] > 0 and reader in enabled:
+                    st["left"] -= 1
+                    return reader
+                st["phase"] = 1
+            if st["phase"] == 1:
+                for w in writers:
+                    if w in enabled:
+                        return w
                 st["phase"] = 2
             return enabled[0] if enabled else None
         return choose
@@ -258,6 +282,31 @@ def run(ctx) -> None:
                     ctx.violation(f"reader:{api}:{'+'.join(o['kind'] for o in writers)}", v,
                                   {"case": c01._case_json(case), "deviations": list(dev), "schedule": res.schedule})
                 bad_all.extend(bad)
+    # whole commits between two consecutive storage operations of a reader (both calls of the handle): what a handle
+    # keeps between its operations -- a cached pointer, cached metadata -- must not outlive the commit
+    bs_sets = [WRITER_SETS[1], WRITER_SETS[0]]
+    for wi, writers in enumerate(bs_sets if not quick else bs_sets[:1]):
+        for ai, api in enumerate(APIS):
+            if quick and ai % 2 == 1:
+                continue
+            ops = writers + [{"kind": "read", "apis": [api, APIS[(ai + 1) % len(APIS)], api]}]
+            case = {"ops": ops, "clock": "tick", "topology": "separate", "yield_filter": reader_filter, "track_states": True}
+            rname = f"A{len(writers)}"
+            wnames = [f"A{i}" for i in range(len(writers))]
+            probe = P.run_case(ctx.scratch, c01._fix_case(case), between_steps_chooser(rname, 10**6, wnames), tag="c02b")
+            nr = sum(1 for a in probe.schedule if a == rname)
+            rs = list(range(1, nr + 1))
+            if quick and len(rs) > 16:
+                rs = sorted(ctx.rng.sample(rs, 16))
+            for r in rs:
+                res = P.run_case(ctx.scratch, c01._fix_case(case), between_steps_chooser(rname, r, wnames), tag="c02b")
+                total += 1
+                ctx.count(1, ("between", wi, api, r))
+                viol, bad = analyse(case, res, [len(writers)])
+                for v in viol:
+                    ctx.violation(f"reader-between-steps:{api}", v,
+                                  {"case": c01._case_json(case), "deviations": [("between", rname, r, wnames)], "schedule": res.schedule})
+                bad_all.extend(bad)
     # faulted readers: one transient failure of the reader's nth read of each class of file while writers commit / fail
     fw_sets = [WRITER_SETS[1], WRITER_SETS[5], WRITER_SETS[0]]
     for wi, writers in enumerate(fw_sets if not quick else fw_sets[:2]):
@@ -319,7 +368,9 @@ def replay(ctx, payload) -> int:
         return 2
     case["yield_filter"] = reader_filter
     dev = c.get("deviations", [])
-    if dev and dev[0][0] == "window":
+    if dev and dev[0][0] == "between":
+        res = P.run_case(ctx.scratch, c01._fix_case(case), between_steps_chooser(dev[0][1], dev[0][2], dev[0][3]), tag="replay")
+    elif dev and dev[0][0] == "window":
         res = P.run_case(ctx.scratch, c01._fix_case(case), window_chooser(f"A{dev[0][1]}", f"A{len(case['ops']) - 1}", dev[0][2]), tag="replay",
                          inject=injectors(case) or None)
     elif dev and dev[0][0] == "random":
